@@ -108,6 +108,39 @@ func c12Worlds() []c12World {
 			}
 		}
 	}
+	{ // the QE report carries a bit that the QE identity's mask leaves out (of ATTRIBUTES, incl. the DEBUG flag, and of
+		// MISCSELECT): with collateral the mask decides, without collateral nothing looks at these fields
+		for _, bit := range []int{1, 2, 5, 7, 8 * 8, 8*15 + 7} {
+			w := world.Honest("T")
+			attr := make([]byte, 16)
+			attr[0] = 0x11
+			attr[bit/8] |= 1 << uint(bit%8)
+			w.Spec.Attributes = attr
+			w.Parts = w.Spec.Parts()
+			mask := make([]byte, 16)
+			for i := 0; i < 8; i++ {
+				mask[i] = 0xff
+			}
+			mask[0] = 0xfb
+			mask[bit/8] &^= 1 << uint(bit%8)
+			idv := make([]byte, 16)
+			for i := range idv {
+				idv[i] = attr[i] & mask[i]
+			}
+			w.QeID.Attributes, w.QeID.AttributesMask = hexs(idv), hexs(mask)
+			w.Finish()
+			add(fmt.Sprintf("honest/qe-bits/attributes-bit%d-outside-the-identity-mask", bit), w, nil)
+		}
+		for _, bit := range []int{0, 9, 31} {
+			w := world.Honest("T")
+			w.Spec.MiscSelect = 1 << uint(bit)
+			w.Parts = w.Spec.Parts()
+			m := ^uint32(1 << uint(bit))
+			w.QeID.Miscselect, w.QeID.MiscselectMask = "00000000", fmt.Sprintf("%02x%02x%02x%02x", byte(m), byte(m>>8), byte(m>>16), byte(m>>24))
+			w.Finish()
+			add(fmt.Sprintf("honest/qe-bits/miscselect-bit%d-outside-the-identity-mask", bit), w, nil)
+		}
+	}
 	{ // processor CA as issuer of the leaf (the library only accepts the platform CA name; the CRL request must still name "processor")
 		w := world.Honest("T")
 		pk := world.NewKey("T/processor-ca")
@@ -839,7 +872,7 @@ func c12EvalWorld(r *mc.Run, w c12World) {
 			r.Violate("more-checking-accepts-more:L1>L0", id, "accepted with collateral checking but rejected with signature and chain checking alone", nil)
 			out = "L1>L0"
 		}
-		if (strings.HasPrefix(w.name, "honest/fmspc") || strings.HasPrefix(w.name, "honest/sgx-elements") || w.name == "composed/default" || (strings.HasPrefix(w.name, "composed/fmspc=") && !strings.Contains(w.name, ","))) && !(acc[0] && acc[1] && acc[2]) {
+		if (strings.HasPrefix(w.name, "honest/fmspc") || strings.HasPrefix(w.name, "honest/sgx-elements") || strings.HasPrefix(w.name, "honest/qe-bits") || w.name == "composed/default" || (strings.HasPrefix(w.name, "composed/fmspc=") && !strings.Contains(w.name, ","))) && !(acc[0] && acc[1] && acc[2]) {
 			r.Violate("honest-world-rejected", id, fmt.Sprintf("an honest world is not accepted at every level: %v", acc[:3]), nil)
 			out = "honest-rejected"
 		}
